@@ -9,7 +9,7 @@ for f in glob.glob(os.path.join(root, "seeded", "BEFORE_*.txt")):
         m = re.match(r"BEFORE (\S+) own=(\S+) harness=(\S+) verdict=(\S+)", line)
         if m:
             before[m.group(1)] = (m.group(4), m.group(3))
-waves = {"a": 1, "b": 1, "c": 2, "d": 2, "e": 3, "f": 3, "g": 4, "h": 4, "i": 5, "j": 5, "k": 6, "l": 6, "m": 7, "n": 7, "o": 8, "p": 8, "q": 9, "r": 9, "s": 10, "t": 10, "u": 11, "v": 11, "w": 12, "x": 12, "y": 13, "z": 13, "0": 14, "1": 14, "2": 15, "3": 15, "4": 16, "5": 16, "6": 17, "7": 17}
+waves = {"a": 1, "b": 1, "c": 2, "d": 2, "e": 3, "f": 3, "g": 4, "h": 4, "i": 5, "j": 5, "k": 6, "l": 6, "m": 7, "n": 7, "o": 8, "p": 8, "q": 9, "r": 9, "s": 10, "t": 10, "u": 11, "v": 11, "w": 12, "x": 12, "y": 13, "z": 13, "0": 14, "1": 14, "2": 15, "3": 15, "4": 16, "5": 16, "6": 17, "7": 17, "8": 18, "9": 18}
 rows = []
 for d in sorted(glob.glob(os.path.join(root, "seeded", "C???", ""))):
     name = os.path.basename(d.rstrip("/"))
@@ -21,7 +21,7 @@ for d in sorted(glob.glob(os.path.join(root, "seeded", "C???", ""))):
 out = []
 out.append("| wave | changes | own check reported it when first evaluated (harness of the time) | own check reports it now | reported by no check now |")
 out.append("|---|---|---|---|---|")
-for w in range(1, 18):
+for w in range(1, 19):
     rs = [r for r in rows if r[1] == w]
     if not rs:
         continue
